@@ -1,5 +1,171 @@
-"""C09 - Raw images and sub-images reproduce their pixel data exactly  (metadata; generators live here and/or in props/C09_*.py parts)"""
-CLAIMED = False   # set True by the owner once ./check C09 passes with real theorems
+"""C09 - Raw images and sub-images reproduce their pixel data exactly"""
+from common import *
+import re
+
+CLAIMED = True
 LEVEL = 'proof'
-LEVEL_TEXT = 'TODO'
-LEVEL_NOTE = 'TODO'
+LEVEL_TEXT = ('Proof: 14 Coq theorems over the Gallina model of ImageRaw / ContiguousPixels / SubImage / Image '
+              '(coq/Model/Imageraw.v, line-by-line incl. the raw load for all 7 raw widths x 2 data orders, the saturating '
+              'nth() of RawDataIterator, the remaining_x/remaining_y/row_skip state machine as the list it yields, the five '
+              'rejection tests of draw_sub_image, SubImage::new = intersection with the parent box, nested re-basing, '
+              'Image::new/with_center through Translated). Proved for every image accepted by ImageRaw::new with extents up to '
+              '2^29 and every chain of sub_image calls: new accepts exactly bytes_per_row*height bytes (new_ok_iff); pixel is None '
+              'exactly outside the box (pixel_none_iff); pixel(x,y) is raw item y*data_width+x and equally item x of the y-th '
+              'bytes_per_row-byte slice (pixel_layout, pixel_row_layout = row padding); the single fill_contiguous call covers '
+              'the drawable box and its colour stream is the pixels in row-major order with exactly w*h items (stream_is_pixels, '
+              'stream_exact); rendering Image(d,o) sets q to pixel(q-o) inside the box and touches nothing else '
+              '(image_draw_spec); sub_image(area) shows the parent pixels inside area intersected with the parent box '
+              '(sub_image_spec); nested sub images compose (sub_sub_compose, d_pixel_root: any nesting depth shows the root pixel() at the accumulated offset); with_center centres (with_center_spec). '
+              'The model is tied to the code by running the extracted model and the real library on the same inputs on every run.')
+LEVEL_NOTE = ('Trusted: Coq kernel, extraction (ExtrOcamlBasic), OCaml/Rust drivers. The hand-written model is validated by '
+              'differential testing (pixel maps, call log, number of colours a draining target pulls) and by an independent '
+              'byte-level reference in the p_ search suites, not proved equal to the Rust source. Colours are raw storage values; '
+              'the conversion RawUx -> colour type is the identity on the value (checked by the correspondence for the six library '
+              'colour types used + a 32 bit test colour). The pixel map semantics of fill_contiguous (row-major zip, pixels outside '
+              'the target dropped) is the DrawTarget contract (C01/C03). Unbounded Z arithmetic; theorems carry extents <= 2^29 '
+              'and draw offsets within +-2^29.')
+RULE = ('correspondence: all sizes 0..N x 0..N (N=9 quick, 16 thorough) + wide rows up to 70 px x 7 raw widths x 2 data orders: '
+        'ImageRaw::new with 6 right/wrong lengths; pixel() on the box plus a 1 px frame; draw of Image::new / with_center at '
+        'random offsets (10% near +-2^20) of the image and of 1..3 nested sub images (inside / overlapping / outside / zero sized / '
+        'whole / larger areas) and direct draw_sub_image calls, on a draw_iter-only target, a native target (call log) and a '
+        'draining native target (colours pulled), with target boxes containing / cutting / missing the image. '
+        'search (p_*): the same inputs judged against an independent byte-level decoder of the documented layout and explicit '
+        'region arithmetic (expected pixel map, one call over the box, exactly w*h colours pulled, centring).')
+EXHAUSTIVE = {'quick': False, 'thorough': False}
+ASSUMPTIONS = ['image extents within 2^29 and draw offsets within +-2^29 (range in which the unbounded model equals the '
+               'u32/usize/i32 arithmetic; the C08 part covers display-scale totality)',
+               'bits per pixel is one of 1, 2, 4, 8, 16, 24, 32 (the seven RawData types of the library)',
+               'sub image areas have non-negative sizes (u32 in the implementation)']
+TRUSTED = ['modelled, not verified: slice::get / get(a..) / get(0..k) as nth_error / skipn / firstn, usize::saturating_add, '
+           'u16/u32::from_le_bytes/from_be_bytes, `byte >> n` then RawUx::new as (byte / 2^n) mod 2^bpp',
+           'd_pixel for SubImage (re-basing by the area top left) is specification, SubImage has no pixel() in the library',
+           'a direct ImageDrawable::draw_sub_image call with an area outside a SubImage\'s own box is documented as '
+           'not-to-be-called; it is compared model-vs-code but not judged by the search suite']
+PARTIAL = []
+
+BPPS = [1, 2, 4, 8, 16, 24, 32]
+
+
+def stride(w, bpp):
+    return (w * bpp + 7) // 8
+
+
+def sub_area(rng, pw, ph):
+    """an area relative to a drawable of size pw x ph: inside / overlapping / outside / zero sized / whole / larger"""
+    k = rng.random()
+    if k < 0.40 and pw > 0 and ph > 0:          # fully inside
+        x = rng.randrange(pw)
+        y = rng.randrange(ph)
+        return (x, y, rng.randrange(1, pw - x + 1), rng.randrange(1, ph - y + 1))
+    if k < 0.65:                                  # overlapping an edge or a corner (or inside, or outside)
+        return (rng.randrange(-3, pw + 2), rng.randrange(-3, ph + 2), rng.randrange(0, pw + 5), rng.randrange(0, ph + 5))
+    if k < 0.75:                                  # outside
+        w, h = rng.randrange(1, 5), rng.randrange(1, 5)
+        x = rng.choice([pw + rng.randrange(0, 3), -w - rng.randrange(0, 3), rng.randrange(-2, pw + 2)])
+        y = rng.choice([ph + rng.randrange(0, 3), -h - rng.randrange(0, 3)]) if 0 <= x < pw or rng.random() < 0.5 else rng.randrange(-2, ph + 2)
+        return (x, y, w, h)
+    if k < 0.85:                                  # zero sized
+        w, h = rng.choice([(0, 0), (0, rng.randrange(1, 4)), (rng.randrange(1, 4), 0)])
+        return (rng.randrange(-1, pw + 2), rng.randrange(-1, ph + 2), w, h)
+    if k < 0.93:                                  # the whole parent
+        return (0, 0, pw, ph)
+    return (-rng.randrange(0, 3), -rng.randrange(0, 3), pw + rng.randrange(0, 5), ph + rng.randrange(0, 5))   # larger
+
+
+def clip(region, a):
+    """region (x0,y0,x1,y1) in raw image coordinates, a relative to its top left -> new region"""
+    x0, y0, x1, y1 = region
+    ax, ay = x0 + a[0], y0 + a[1]
+    nx0, ny0, nx1, ny1 = max(x0, ax), max(y0, ay), min(x1, ax + a[2]), min(y1, ay + a[3])
+    if nx0 >= nx1 or ny0 >= ny1:
+        return (nx0, ny0, nx0, ny0)
+    return (nx0, ny0, nx1, ny1)
+
+
+def draw_case(rng, pre, bpp, alt, w, h, nsub, tk=None, direct=False):
+    seed = rng.randrange(2 ** 30)
+    region = (0, 0, w, h)
+    subs = []
+    for _ in range(nsub):
+        a = sub_area(rng, region[2] - region[0], region[3] - region[1])
+        subs += list(a)
+        region = clip(region, a)
+    sw, sh = region[2] - region[0], region[3] - region[1]
+    mode = 1 if rng.random() < 0.25 else 0
+    k = rng.random()
+    if direct:
+        # ImageDrawable::draw_sub_image(target, area) called directly on the final drawable: no offset, the
+        # area is drawn at the origin (or rejected when it is not fully inside)
+        a = sub_area(rng, sw, sh)
+        subs += list(a)
+        mode, ox, oy = 2, 0, 0
+        sw, sh = a[2], a[3]
+    elif k < 0.1:
+        ox, oy = rng.choice([-1, 1]) * rng.randrange(2 ** 20 - 40, 2 ** 20), rng.choice([-1, 1]) * rng.randrange(2 ** 20 - 40, 2 ** 20)
+    elif k < 0.3:
+        ox, oy = 0, 0
+    else:
+        ox, oy = rng.randrange(-12, 13), rng.randrange(-12, 13)
+    # where the image lands (top left), to place the target box around / across it
+    tx, ty = (ox - (max(sw, 1) - 1) // 2, oy - (max(sh, 1) - 1) // 2) if mode == 1 else (ox, oy)
+    k = rng.random()
+    if k < 0.55:      # target contains the whole image with a margin
+        bb = (tx - 2, ty - 2, sw + 4, sh + 4)
+    elif k < 0.9:     # target cuts the image
+        bb = (tx + rng.randrange(-3, sw + 2), ty + rng.randrange(-3, sh + 2), rng.randrange(0, sw + 4), rng.randrange(0, sh + 4))
+    elif k < 0.95:    # empty target
+        bb = (tx, ty, 0, rng.randrange(0, 3))
+    else:             # target elsewhere
+        bb = (tx + sw + 1, ty - 1, 3, sh + 2)
+    if tk is None:
+        tk = rng.randrange(3)
+    return J(pre + 'img_draw', bpp, alt, w, h, stride(w, bpp) * h, seed, mode, ox, oy, tk, *bb, nsub, *subs)
+
+
+def sizes(tier, rng):
+    N = 9 if tier == 'quick' else 16
+    for w in range(N + 1):
+        for h in range(N + 1):
+            yield w, h
+    # wider rows (several bytes per row at 1 bpp), few rows
+    for _ in range(60 if tier == 'quick' else 600):
+        yield rng.randrange(N + 1, 71), rng.randrange(1, 6)
+
+
+def gen(tier, rng, pre):
+    reps = 1 if tier == 'quick' else 2
+    for w, h in sizes(tier, rng):
+        for bpp in BPPS:
+            for alt in (0, 1):
+                exact = stride(w, bpp) * h
+                # ImageRaw::new with right and wrong lengths
+                lens = {exact, exact + 1, max(exact - 1, 0), (w * h * bpp + 7) // 8, (w * bpp // 8) * h, rng.randrange(0, exact + 9)}
+                for ln in sorted(lens):
+                    yield J(pre + 'img_new', bpp, alt, w, h, ln)
+                yield J(pre + 'img_pixels', bpp, alt, w, h, exact, rng.randrange(2 ** 30))
+                for _ in range(reps):
+                    yield draw_case(rng, pre, bpp, alt, w, h, 0)
+                    yield draw_case(rng, pre, bpp, alt, w, h, 1, tk=2)
+                    yield draw_case(rng, pre, bpp, alt, w, h, 1)
+                    yield draw_case(rng, pre, bpp, alt, w, h, 2)
+                    yield draw_case(rng, pre, bpp, alt, w, h, rng.choice([2, 3, 3]), tk=2)
+                    yield draw_case(rng, pre, bpp, alt, w, h, 0, direct=True)
+                    yield draw_case(rng, pre, bpp, alt, w, h, rng.choice([0, 1, 2]), tk=2, direct=True)
+    # a wrong length reaches img_draw / img_pixels as `err n` on both sides
+    if pre == '':
+        for _ in range(50):
+            w, h, bpp = rng.randrange(1, 9), rng.randrange(1, 9), rng.choice(BPPS)
+            yield J('img_pixels', bpp, rng.randrange(2), w, h, stride(w, bpp) * h + rng.choice([-1, 1, 2]), 7)
+
+
+def trivial(line, res):
+    """empty pixel map / nothing drawn / none"""
+    return res in ('', 'none', '0') or ' MAP  ' in res + ' ' and re.search(r' MAP ( |$)', res) is not None
+
+
+def cases(tier, rng):
+    yield from gen(tier, rng, '')
+
+
+def search(tier, rng):
+    yield from gen(tier, rng, 'p_')
